@@ -3,8 +3,14 @@ scripted fake asyncio transport and the virtual loop, against the Lean write-pat
 (`drv_c15`), with the property oracle on the implementation's own trace.
 
 Events:  ('S', sender, msg, flags, big)  a task calls session._send_message(<body of msg>);
-                                          big: the framed message is 150-300 KB (several 64 KiB
+                                          big: the framed message is 150 KB - 1.1 MB (several
                                           pieces), otherwise a few bytes.  Text: `S s m f` / `B s m f`
+                                          The 5th field is the SHAPE of the sender: False / True =
+                                          `_send_message` of a small / big raw message (`S`/`B`);
+                                          'N' = `session.send_notification(..)` (text `N s m f`);
+                                          'K' = a batch of notifications only through the public
+                                          `session.send_batch()` (text `K s m f`) - senders that
+                                          end when their message is written
          ('P',) buffer full (pause_writing)      ('R', flags) buffer drained (resume_writing)
          ('L',) link lost                         ('A', dt) virtual time passes
          ('C', msg)  the harness cancels the task that is sending <msg> (no-op if it finished or
@@ -39,7 +45,7 @@ from harness.base import Results, corpus_lines
 
 MAXDELAY = 20
 FORCE_AFTER = 100000
-RULE = ('case = sequence of <=14 events over {send of a small or a big (150-300 KB framed) message '
+RULE = ('case = sequence of <=14 events over {send of a small or a big (150 KB - 1.1 MB framed) message '
         'by one of 4 senders, pause, resume, link lost, time passes, cancel the sender of message '
         'k, graceful close with/without unsent data, batches of sends/pauses/resumes performed '
         'back to back before the loop runs again} with a scripted high-water policy (the '
@@ -57,7 +63,9 @@ def body(m, big):
     k = (m, big)
     if k not in _BODY:
         if big:
-            n = 150000 + (m % 4) * 50000
+            # a few sizes; ids 1, 5, 9.. are beyond 1 MiB (several pieces for any plausible piece
+            # size of a write() that hands a frame over in parts)
+            n = (150000, 1100000, 250000, 300000)[m % 4]
             unit = b'<%d>' % m
             _BODY[k] = (b'%d:' % m + unit * (n // len(unit) + 1))[:n]
         else:
@@ -93,6 +101,7 @@ class Impl:
         self.closers = []
         self.sent = {}                  # msg id -> big?
         self.frames = {}                # msg id -> expected frame
+        self.small = {}                 # expected frame (short ones) -> msg id
         self.tail = b''                 # bytes of the stream after the last whole line
         self.obs = []
         self.idle()
@@ -120,9 +129,34 @@ class Impl:
         self.loop._vtime = float(target)
         self.idle()
 
+    def _items(self, m, shape):
+        N = self.mods['jsonrpc'].Notification
+        return [N(f'm{m}', [m])] if shape == 'N' else [N(f'm{m}', [m]), N(f'n{m}', [m, m])]
+
+    def _frame(self, m, shape):
+        """the whole frame of message m.  Raw messages: the bytes and a newline.  Public-API
+        senders: what the connection's (pure) encoder makes of the items, and a newline"""
+        if shape in (False, True):
+            f = frame_of(m, shape)
+        elif shape == 'N':
+            f = self.session.connection.send_notification(self._items(m, shape)[0]) + b'\n'
+        else:
+            Batch = self.mods['jsonrpc'].Batch
+            f = self.session.connection.send_batch(Batch(self._items(m, shape)))[0] + b'\n'
+        if len(f) < 4096:
+            self.small[f] = m
+        return f
+
     async def _send(self, s, m, big):
         try:
-            await self.session._send_message(body(m, big))
+            if big == 'N':
+                await self.session.send_notification(f'm{m}', [m])
+            elif big == 'K':
+                async with self.session.send_batch() as b:
+                    for it in self._items(m, big):
+                        b.add_notification(it.method, it.args)
+            else:
+                await self.session._send_message(body(m, big))
             self.obs.append(f'ok{s}.{m}@{int(self.loop.time())}')
         except self.TaskTimeout:
             self.obs.append(f'to{s}.{m}@{int(self.loop.time())}')
@@ -142,6 +176,10 @@ class Impl:
 
     def _whole(self, data):
         """msg id if `data` is exactly the frame of a message passed to a send, else None"""
+        if len(data) < 4096:
+            m = self.small.get(bytes(data))
+            if m is not None:
+                return m
         mm = _DIGITS.match(data)
         if mm:
             m = int(mm.group())
@@ -180,7 +218,7 @@ class Impl:
         if k == 'S':
             self.tr.pause_script = list(ev[3])
             self.sent[ev[2]] = ev[4]
-            self.frames[ev[2]] = frame_of(ev[2], ev[4])
+            self.frames[ev[2]] = self._frame(ev[2], ev[4])
             t = self.loop.create_task(self._send(ev[1], ev[2], ev[4]))
             self.tasks[ev[2]] = t
             self.idle()
@@ -209,7 +247,7 @@ class Impl:
             for a in ev[2]:
                 if a[0] == 'S':
                     self.sent[a[2]] = a[3]
-                    self.frames[a[2]] = frame_of(a[2], a[3])
+                    self.frames[a[2]] = self._frame(a[2], a[3])
                     t = self.loop.create_task(self._send(a[1], a[2], a[3]))
                     self.tasks[a[2]] = t
                     fresh.append((a[1], a[2], t))
@@ -272,6 +310,10 @@ class Impl:
             self.loop.close()
 
 
+LETTER = {False: 'S', True: 'B', 'N': 'N', 'K': 'K'}
+SHAPE = {v: k for k, v in LETTER.items()}
+
+
 def _fl(f):
     return ''.join('1' if x else '0' for x in f) or '-'
 
@@ -279,13 +321,13 @@ def _fl(f):
 def ser(ev):
     k = ev[0]
     if k == 'S':
-        return f'{"B" if ev[4] else "S"} {ev[1]} {ev[2]} {_fl(ev[3])}'
+        return f'{LETTER[ev[4]]} {ev[1]} {ev[2]} {_fl(ev[3])}'
     if k == 'R':
         return f'R {_fl(ev[1])}'
     if k in ('A', 'C', 'G'):
         return f'{k} {int(ev[1])}'
     if k == 'X':
-        acts = ','.join(f'{"B" if a[3] else "S"}.{a[1]}.{a[2]}' if a[0] == 'S' else a[0] for a in ev[2])
+        acts = ','.join(f'{LETTER[a[3]]}.{a[1]}.{a[2]}' if a[0] == 'S' else a[0] for a in ev[2])
         return f'X {_fl(ev[1])} {acts}'
     return k
 
@@ -297,8 +339,8 @@ def parse(text):
         f = tok.split()
         if not f:
             continue
-        if f[0] in ('S', 'B'):
-            evs.append(('S', int(f[1]), int(f[2]), fl(f[3]), f[0] == 'B'))
+        if f[0] in SHAPE:
+            evs.append(('S', int(f[1]), int(f[2]), fl(f[3]), SHAPE[f[0]]))
         elif f[0] == 'R':
             evs.append(('R', fl(f[1])))
         elif f[0] in ('A', 'C', 'G'):
@@ -307,7 +349,7 @@ def parse(text):
             acts = []
             for a in f[2].split(','):
                 b = a.split('.')
-                acts.append(('S', int(b[1]), int(b[2]), b[0] == 'B') if b[0] in 'SB' else (b[0],))
+                acts.append(('S', int(b[1]), int(b[2]), SHAPE[b[0]]) if b[0] in SHAPE else (b[0],))
             evs.append(('X', fl(f[1]), tuple(acts)))
         else:
             evs.append((f[0],))
@@ -463,8 +505,10 @@ ALPHABET_2 = [('S',), ('Sp',), ('B',), ('Bp',), ('P',), ('R',), ('Rp',), ('G',),
 # family 3: things that happen back to back before the loop runs again.  SR / SpR: a sender is
 # already runnable when the buffer drains (it runs before the woken writers; p: its write
 # re-fills the buffer); RS: the sender becomes runnable just after the resume; RP: the buffer
-# fills again before any woken writer has run
-ALPHABET_3 = [('S',), ('Sp',), ('P',), ('R',), ('SR',), ('SpR',), ('RS',), ('RP',), ('G',), ('A25',)]
+# fills again before any woken writer has run; N / K: senders of the public API - a notification,
+# a batch of notifications only
+ALPHABET_3 = [('S',), ('Sp',), ('P',), ('R',), ('SR',), ('SpR',), ('RS',), ('RP',), ('A25',),
+              ('N',), ('K',)]
 COMPOSITE = {'SR': ((), 'SR'), 'SpR': ((True,), 'SR'), 'RS': ((), 'RS'), 'RP': ((), 'RP')}
 
 
@@ -482,6 +526,9 @@ def expand(seq):
                 else:
                     acts.append((c,))
             evs.append(('X', flags, tuple(acts)))
+        elif x in ('N', 'K'):
+            mid += 1
+            evs.append(('S', mid % 3, mid, (), x))
         elif x[0] in 'SB':
             mid += 1
             p = x.endswith('p')
@@ -510,10 +557,10 @@ def random_trace(r):
         k = r.random()
         if k < 0.40:
             mid += 1
-            big = r.random() < 0.3
+            big = r.choice([False, False, False, False, True, True, 'N', 'K', 'K'])
             # a big message may be handed over in several calls by a changed write(): script
             # the high-water answer for the later calls too
-            fl = tuple(r.random() < 0.3 for _ in range(r.randint(1, 3) if big else 1))
+            fl = tuple(r.random() < 0.3 for _ in range(r.randint(1, 3) if big is True else 1))
             evs.append(('S', r.randrange(4), mid, fl, big))
         elif k < 0.53:
             evs.append(('P',))
@@ -534,7 +581,7 @@ def random_trace(r):
                 c = r.random()
                 if c < 0.4:
                     mid += 1
-                    acts.append(('S', r.randrange(4), mid, r.random() < 0.2))
+                    acts.append(('S', r.randrange(4), mid, r.choice([False, False, False, True, 'N', 'K'])))
                 elif c < 0.6:
                     acts.append(('P',))
                 else:
@@ -586,9 +633,11 @@ def evaluate(ctx, jobs, res):
         res.count('frames_on_stream', sum(len(r['frames']) for r in recs))
         res.count('stream_bytes', sum(r['bytes'] for r in recs))
         snd = [x for e in evs for x in sends_of(e)]
-        res.count('sends_small', sum(1 for x in snd if not x[2]))
-        res.count('sends_big', sum(1 for x in snd if x[2]))
-        res.count('big_frames_on_stream', sum(1 for x in snd if x[2]
+        res.count('sends_small', sum(1 for x in snd if x[2] is False))
+        res.count('sends_big', sum(1 for x in snd if x[2] is True))
+        res.count('sends_notification_api', sum(1 for x in snd if x[2] == 'N'))
+        res.count('sends_notification_only_batch_api', sum(1 for x in snd if x[2] == 'K'))
+        res.count('big_frames_on_stream', sum(1 for x in snd if x[2] is True
                                               and any(x[1] in r['frames'] for r in recs)))
         res.count('batch_events', sum(1 for e in evs if e[0] == 'X'))
         # a sender of a batch wrote in a step in which writers that had been blocked before
